@@ -20,6 +20,10 @@ R5  composite components: every container of sub-components evaluated in calc_va
     gradient use the same coefficient
 R6  layering: atom::apply_force() is called only from the atom-group layer (atom_group::apply_colvar_force,
     group_force_object), which rotates forces back to the laboratory frame and adds the forces on the fitting group
+R8  cached group totals: where a function refreshes a per-atom quantity from the engine (atom::update_mass/charge), every
+    exit passes through the function that recomputes the group total summed from that quantity (total_mass,
+    total_charge; the gradients of the dipole components divide one by the other); functions that adjust one total
+    incrementally adjust the other as well
 """
 import re
 
@@ -859,6 +863,85 @@ def r7(F, rep):
         raise AnalysisBroken("only %d sign-conditional values found (orientation, orientationAngle expected)" % n)
 
 
+# ------------------------------------------------------------------------------------------------ R8
+ATOM = "colvarmodule::atom"
+GROUP = "colvarmodule::atom_group"
+
+
+def r8(F, rep):
+    rep.rule("C01-R8", "cached group totals follow the per-atom data: a function that refreshes a per-atom quantity from the "
+                       "engine (a zero-argument colvarmodule::atom method assigning one of its fields from the proxy) "
+                       "reaches, on every path to its exit, the atom_group method that recomputes the total summed from "
+                       "that field; and a function that adjusts one such total incrementally adjusts all of them")
+    # per-atom refreshers: atom::update_X() { X = proxy->get_atom_X(index); }
+    refreshers = {}
+    for f in F.funcs.values():
+        if f.cls != ATOM or f.is_lambda:
+            continue
+        ws = [(w, t) for w, t in lvalue_writes(f) if X.key(t, f).startswith("this.")]
+        if len(ws) != 1 or ws[0][0].get("op") != "=":
+            continue
+        rhs = X.strip(X.kids(ws[0][0])[1])
+        if not any("colvarproxy" in (c.get("cq") or "") for c in X.calls(f)):
+            continue
+        if rhs["k"] not in ("CXXMemberCallExpr", "CallExpr"):
+            continue
+        refreshers[f.q] = X.strip(ws[0][1]).get("q")
+    # recomputers: atom_group method with  total += atom->X
+    recomputers = {}      # atom field q -> (function q, total field key)
+    for f in F.funcs.values():
+        if f.cls != GROUP or f.is_lambda:
+            continue
+        for w, t in lvalue_writes(f):
+            if w.get("op") != "+=" or not X.key(t, f).startswith("this."):
+                continue
+            rhs = X.strip(X.kids(w)[1]) if w["k"] != "CXXOperatorCallExpr" else X.strip(X.call_args(w)[1])
+            if rhs["k"] == "MemberExpr" and rhs.get("dk") == "Field" and rhs.get("q") in refreshers.values():
+                # a recomputer resets the total before the loop and has no parameter
+                if any(w2.get("op") == "=" and X.key(t2, f) == X.key(t, f) for w2, t2 in lvalue_writes(f)) and not f.params:
+                    recomputers[rhs["q"]] = (f.q, X.key(t, f))
+    if len(refreshers) < 2 or len(recomputers) < 2:
+        raise AnalysisBroken("C01-R8: %d per-atom refreshers, %d total recomputers found (mass and charge expected)" % (len(refreshers), len(recomputers)))
+    totals = sorted(k for _, k in recomputers.values())
+    n = 0
+    for f in F.funcs.values():
+        if f.cls != GROUP:      # the atom constructors refresh a single atom that is not yet in any group
+            continue
+        for c in X.calls(f):
+            fld = refreshers.get(c.get("cq"))
+            if fld is None:
+                continue
+            n += 1
+            rc = recomputers.get(fld)
+            if rc is None:
+                rep.add("C01-R8", "%s|%s" % (f.q, c.get("cq")), f.loc(c), "%s refreshes %s; no atom_group method recomputes a total from it" % (f.q, fld), True, func=f.q)
+                continue
+            after = [d for d in X.calls(f) if d.get("cq") == rc[0]]
+            ok = bool(after) and not f.cfg.exits_from(c, avoiding=after)
+            rep.add("C01-R8", "%s|%s" % (f.q, c.get("cq")), f.loc(c),
+                    "%s refreshes %s of its atoms from the engine; every path to its exit then passes through %s()" % (f.q, fld.split("::")[-1], rc[0]), ok,
+                    detail="%s keeps the sum of the old per-atom values: components that use it in their gradients (dipoleMagnitude, dipoleAngle: "
+                           "q_j - m_j total_charge/total_mass) apply forces that are not the derivative of the value computed from the fresh per-atom data" % rc[1], func=f.q)
+    if n < 2:
+        raise AnalysisBroken("C01-R8: only %d calls of per-atom refreshers found" % n)
+    # incremental writers agree
+    m = 0
+    recomp_funcs = {q for q, _ in recomputers.values()}
+    for f in F.funcs.values():
+        if f.cls != GROUP or f.q in recomp_funcs or f.is_lambda:
+            continue
+        written = {X.key(t, f) for w, t in lvalue_writes(f) if X.key(t, f) in totals}
+        if not written:
+            continue
+        m += 1
+        missing = [k for k in totals if k not in written]
+        rep.add("C01-R8", "%s|totals" % f.q, f.loc(f.body) if getattr(f, "body", None) is not None else f.file, "%s writes %s of the cached totals %s" % (
+            f.q, "all" if not missing else "only " + str(sorted(written)), totals), not missing,
+            detail="missing: %s" % missing, func=f.q)
+    if m < 2:
+        raise AnalysisBroken("C01-R8: only %d incremental writers of the group totals found (add_atom, remove_atom expected)" % m)
+
+
 def run(F, rep, tier):
     r1(F, rep)
     r2(F, rep)
@@ -867,3 +950,4 @@ def run(F, rep, tier):
     r5(F, rep)
     r6(F, rep)
     r7(F, rep)
+    r8(F, rep)
